@@ -511,3 +511,161 @@ Print Assumptions dest_advancement_guard.
 Print Assumptions dest_cancel_unretrieved_only_if_ready.
 Print Assumptions dest_ready_inv.
 Print Assumptions get_never_raises.
+
+(* ------------------------------------------------------------------ source handler: the packets-ready counter *)
+(* (after the F28 repair) the sender satisfies the same invariant as the receiver.  The abandon path
+   (sreset_internal true) does not keep the measure s_ready - |s_queue| but establishes the invariant outright,
+   so this is a predicate-preservation walk: [RInv m] = "m keeps s_ready = |s_queue|, whether it returns or raises". *)
+Definition ready_inv_s (s : src) : Prop := s_ready s = zlen (s_queue s).
+
+Definition RInv {A} (m : SM A) : Prop := forall s, ready_inv_s s -> ready_inv_s (fst (m s)).
+
+Lemma rinv_ret {A} (a : A) : RInv (ret a).
+Proof. intros s H. exact H. Qed.
+Lemma rinv_raise {A} e : RInv (@raise src A e).
+Proof. intros s H. exact H. Qed.
+Lemma rinv_gets {A} (f : src -> A) : RInv (gets f).
+Proof. intros s H. exact H. Qed.
+Lemma rinv_modify (f : src -> src) : (forall s, ready_inv_s s -> ready_inv_s (f s)) -> RInv (modify f).
+Proof. intros Hf s H. apply Hf, H. Qed.
+Lemma rinv_put x : ready_inv_s x -> RInv (put x).
+Proof. intros Hx s _. exact Hx. Qed.
+Lemma rinv_bind {A B} (m : SM A) (f : A -> SM B) : RInv m -> (forall a, RInv (f a)) -> RInv (bind m f).
+Proof.
+  intros Hm Hf s H. unfold bind. specialize (Hm s H).
+  destruct (m s) as [s1 [a|e]]; cbn [fst] in *; [apply Hf, Hm | exact Hm].
+Qed.
+Lemma rinv_get_bind {B} (f : src -> SM B) : (forall s0, ready_inv_s s0 -> RInv (f s0)) -> RInv (bind get f).
+Proof. intros Hf s H. unfold bind, get. exact (Hf s H s H). Qed.
+Lemma rinv_when b (m : SM unit) : RInv m -> RInv (when b m).
+Proof. intro Hm. destruct b; [exact Hm | apply rinv_ret]. Qed.
+Lemma rinv_fold {B} (g : B -> SM unit) (l : list B) : forall m0,
+  RInv m0 -> (forall b, RInv (g b)) -> RInv (fold_left (fun m b => bind m (fun _ => g b)) l m0).
+Proof.
+  induction l as [|b l IH]; intros m0 H0 Hg; cbn [fold_left]; [exact H0|].
+  apply IH; [|exact Hg]. apply rinv_bind; [exact H0 | intros _; apply Hg].
+Qed.
+
+(* the three places that touch the counter or the queue *)
+Lemma rinv_sadd_packet : forall p, RInv (sadd_packet p).
+Proof.
+  intros p s H. unfold sadd_packet, modify, ready_inv_s in *. cbn. rewrite zlen_app1. lia.
+Qed.
+Lemma rinv_sreset_internal : forall c, RInv (sreset_internal c).
+Proof.
+  intros c s H. unfold sreset_internal, modify, ready_inv_s in *. destruct c; cbn; [reflexivity | exact H].
+Qed.
+Lemma rinv_get_next_packet_s : RInv get_next_packet_s.
+Proof.
+  intros s H. unfold get_next_packet_s, bind, get, put, ret, ready_inv_s in *.
+  destruct s as [cfg st step ready q p sb pt sc sbits env]. cbn in *.
+  destruct q as [|x q]; cbn; [exact H|]. unfold zlen in *. cbn [length] in H. lia.
+Qed.
+
+Create HintDb rinv discriminated.
+#[local] Hint Resolve rinv_sadd_packet rinv_sreset_internal : rinv.
+
+(* side condition of modify / put: the update leaves s_ready and s_queue alone *)
+Ltac rinv_side :=
+  unfold ready_inv_s in *;
+  repeat match goal with H : s_ready ?x = _ |- _ => is_var x; destruct x; cbn in H end;
+  first [ intros []; cbn; intro; assumption | cbn; assumption ].
+
+Ltac rinv_step :=
+  cbv beta zeta;
+  match goal with
+  | |- RInv _ => solve [auto with rinv nocore]
+  | |- RInv (bind get _) => apply rinv_get_bind; intros ? ?
+  | |- RInv (bind _ _) => apply rinv_bind; [|intro]
+  | |- RInv (ret _) => apply rinv_ret
+  | |- RInv (raise _) => apply rinv_raise
+  | |- RInv (gets _) => apply rinv_gets
+  | |- RInv (modify _) => apply rinv_modify; rinv_side
+  | |- RInv (put _) => apply rinv_put; rinv_side
+  | |- RInv (when _ _) => apply rinv_when
+  | |- RInv (fold_left _ _ _) => apply rinv_fold; [|intro]
+  | |- RInv (if ?b then _ else _) => destruct b
+  | |- RInv (match ?x with _ => _ end) => destruct x
+  | |- RInv ?m => let h := mhead m in unfold h
+  end.
+Ltac rinv := repeat rinv_step.
+
+Lemma rinv_checksum_calculation : forall size, RInv (checksum_calculation size).
+Proof. intro. rinv. Qed.
+#[local] Hint Resolve rinv_checksum_calculation : rinv.
+Lemma rinv_prepare_file_data_pdu : forall o l, RInv (prepare_file_data_pdu o l).
+Proof. intros. rinv. Qed.
+#[local] Hint Resolve rinv_prepare_file_data_pdu : rinv.
+Lemma rinv_prepare_metadata_pdu : RInv prepare_metadata_pdu.
+Proof. rinv. Qed.
+#[local] Hint Resolve rinv_prepare_metadata_pdu : rinv.
+Lemma rinv_prepare_eof_pdu : forall ck, RInv (prepare_eof_pdu ck).
+Proof. intro. rinv. Qed.
+#[local] Hint Resolve rinv_prepare_eof_pdu : rinv.
+Lemma rinv_handle_eof_sent : forall b, RInv (handle_eof_sent b).
+Proof. intro. rinv. Qed.
+#[local] Hint Resolve rinv_handle_eof_sent : rinv.
+Lemma rinv_notice_of_cancellation_s : forall c, RInv (notice_of_cancellation_s c).
+Proof. intro. rinv. Qed.
+#[local] Hint Resolve rinv_notice_of_cancellation_s : rinv.
+Lemma rinv_declare_fault_s : forall c, RInv (declare_fault_s c).
+Proof. intro. rinv. Qed.
+#[local] Hint Resolve rinv_declare_fault_s : rinv.
+Lemma rinv_transaction_start : RInv transaction_start.
+Proof. rinv. Qed.
+#[local] Hint Resolve rinv_transaction_start : rinv.
+Lemma rinv_retransmit_chunks : forall fuel o m seg, RInv (retransmit_chunks fuel o m seg).
+Proof. induction fuel; intros; cbn [retransmit_chunks]; rinv. Qed.
+#[local] Hint Resolve rinv_retransmit_chunks : rinv.
+Lemma rinv_handle_segment_req : forall rq, RInv (handle_segment_req rq).
+Proof. intro. rinv. Qed.
+#[local] Hint Resolve rinv_handle_segment_req : rinv.
+Lemma rinv_handle_retransmission : forall pkt, RInv (handle_retransmission pkt).
+Proof. intro. rinv. Qed.
+#[local] Hint Resolve rinv_handle_retransmission : rinv.
+Lemma rinv_sending_file_data_fsm : forall pkt, RInv (sending_file_data_fsm pkt).
+Proof. intro. rinv. Qed.
+#[local] Hint Resolve rinv_sending_file_data_fsm : rinv.
+Lemma rinv_handle_waiting_for_ack : forall pkt, RInv (handle_waiting_for_ack pkt).
+Proof. intro. rinv. Qed.
+#[local] Hint Resolve rinv_handle_waiting_for_ack : rinv.
+Lemma rinv_handle_wait_for_finish : forall pkt, RInv (handle_wait_for_finish pkt).
+Proof. intro. rinv. Qed.
+#[local] Hint Resolve rinv_handle_wait_for_finish : rinv.
+Lemma rinv_notice_of_completion_s : RInv notice_of_completion_s.
+Proof. rinv. Qed.
+#[local] Hint Resolve rinv_notice_of_completion_s : rinv.
+Lemma rinv_fsm_advancement_s : RInv fsm_advancement_s.
+Proof. rinv. Qed.
+#[local] Hint Resolve rinv_fsm_advancement_s : rinv.
+Lemma rinv_check_inserted_packet_s : forall p, RInv (check_inserted_packet_s p).
+Proof. intros p s H. pose proof (minv_state _ _ _ s (adm_s p)) as X. unfold whole in X. rewrite X. exact H. Qed.
+#[local] Hint Resolve rinv_check_inserted_packet_s : rinv.
+Lemma rinv_fsm_non_idle : forall pkt, RInv (fsm_non_idle pkt).
+Proof. intro. rinv. Qed.
+#[local] Hint Resolve rinv_fsm_non_idle : rinv.
+Lemma rinv_state_machine_s : forall pkt, RInv (state_machine_s pkt).
+Proof. intro. rinv. Qed.
+Lemma rinv_put_request : forall p, RInv (put_request p).
+Proof. intro. rinv. Qed.
+Lemma rinv_cancel_request_s : forall a b, RInv (cancel_request_s a b).
+Proof. intros. rinv. Qed.
+
+Lemma source_ready_inv : forall pkt p a b s,
+  ready_inv_s s ->
+  ready_inv_s (fst (state_machine_s pkt s)) /\ ready_inv_s (fst (put_request p s)) /\
+  ready_inv_s (fst (get_next_packet_s s)) /\ ready_inv_s (fst (cancel_request_s a b s)) /\ ready_inv_s (fst (reset_s s)).
+Proof.
+  intros pkt p a b s H. split; [|split; [|split; [|split]]].
+  - exact (rinv_state_machine_s pkt s H).
+  - exact (rinv_put_request p s H).
+  - exact (rinv_get_next_packet_s s H).
+  - exact (rinv_cancel_request_s a b s H).
+  - exact (rinv_sreset_internal true s H).
+Qed.
+
+Lemma source_ready_inv_init : forall c seq0 bits, ready_inv_s (src_init c seq0 bits).
+Proof. intros. reflexivity. Qed.
+
+Print Assumptions source_ready_inv.
+Print Assumptions source_ready_inv_init.
